@@ -61,6 +61,13 @@ def eq_values(I, st, a, b):
     if a is b:
         if not (is_z3(a)):
             return True
+    if type(a).__name__ == "DtypeVal" or type(b).__name__ == "DtypeVal":
+        # numpy dtype == dtype / dtype == "O" (a dtype name)
+        from .npmodel import as_dtype_kind
+
+        if not (type(a).__name__ == "DtypeVal" or isinstance(a, str)) or not (type(b).__name__ == "DtypeVal" or isinstance(b, str)):
+            raise Unsupported("== between a dtype and %r" % ((b if type(a).__name__ == "DtypeVal" else a),))
+        return as_dtype_kind(a) == as_dtype_kind(b)
     from . import bytesmodel as _bm
     from .heap import HObj as _HObj, unwrap as _unwrap
 
